@@ -17,6 +17,16 @@ Definition of_outcome (o : outcome) : sx :=
    (4 dens) = continue_dimension_wise_refinement (dens: new densities at ALL testing samples); observation + calc afterwards *)
 Definition cstep (v : variant) (cv : cvariant) (st : cstate) (op : sx) : cstate * sx :=
   match op with
+  | Lv [Zv 1; d; dens; rj] =>      (* rj: the implementation compares the accumulated offsets and they differ (phase 3, call_r) *)
+    match get_ds d, get_LLQc dens, get_bool rj with
+    | Some d, Some dens, Some rj => let '(st', o) := call_r rj v cv st d dens in (st', Lv [of_outcome o; of_LZ (c_calc st')])
+    | _, _, _ => (st, sx_err 15)
+    end
+  | Lv [Zv 2; d; dens; rj] =>
+    match get_ds d, get_LLQc dens, get_bool rj with
+    | Some d, Some dens, Some rj => let '(st', o) := test_data_r rj v cv st d dens in (st', Lv [of_outcome o; of_LZ (c_calc st')])
+    | _, _, _ => (st, sx_err 16)
+    end
   | Lv [Zv 1; d; dens] =>
     match get_ds d, get_LLQc dens with
     | Some d, Some dens => let '(st', o) := call v cv st d dens in (st', Lv [of_outcome o; of_LZ (c_calc st')])
@@ -57,6 +67,7 @@ Definition get_range (s : sx) : option (option (row * row)) :=
 (* sub 0: ((dedup fullcmp store labelmap) dataset data_range class_labels test_labels dens_test (op ...))
           -> ((0 min max fac scaled omitted) calc0 obs...)  |  ((1)) when the initialisation raises
    sub 1: (densities) -> arg-max index (numpy argmax)
+   sub 3: (lo labels) -> signed training labels of every one_vs_others classificator (phase 3)
    sub 2: the learning side inside the model (Model/ClassifyLearn.v):
           ((dedup fullcmp store labelmap) dataset data_range (is_float p even perm? idx lo_split) lo_learn dens_test (op ...))
           perm? = () when shuffle_data=False, (perm) otherwise; idx / lo_split / lo_learn = iteration orders of the Python sets
@@ -110,6 +121,16 @@ Definition entry_C19 (sub : Z) (a : sx) : sx :=
       | _, _, _, _, _, _, _, _ => sx_err 6
       end
     | _, _, _, _, _, _ => sx_err 5
+    end
+  | 3, Lv [lo; labs] =>        (* split_one_vs_others: (get_labels() order, labels of the learning data) -> (0 (signed labels per classificator)) | (1) raises *)
+    match get_LZ lo, get_LZ labs with
+    | Some lo, Some labs =>
+      let r := map (fun l => (([] : row), l)) labs in
+      match split_one_vs_others lo r with
+      | None => Lv [Zv 1]
+      | Some ps => Lv [Zv 0; Lv (map (fun p => of_LQc (map snd p)) ps)]
+      end
+    | _, _ => sx_err 7
     end
   | 1, l => match get_LQc l with Some l => Zv (Z.of_nat (argmax l)) | None => sx_err 4 end
   | _, _ => sx_err 0
